@@ -19,6 +19,8 @@ var c15Corpus = []string{
 	"//site.test.evil.example", "//site.test:8443/", "//[::1]/x", "//evil.example:443/", "javascript:alert(1)", "JaVaScRiPt:alert(document.cookie)", "java\tscript:alert(1)",
 	"data:text/html,<script>alert(1)</script>", "x-app://open", "//evil.example/" + strings.Repeat("a", 3000), "/\\\t/evil.example", "//\tevil.example", "https://evil.example?x=://",
 	"//evil.example/%2F..", "\\\\\\evil.example", "/\x0b/evil.example", "/\x00/evil.example",
+	// percent-encoded spellings: harmless as they stand (same-site paths), off-site if a layer decodes them
+	"/%2Fevil.example/x", "/%2f%2fevil.example", "/%5Cevil.example/x", "/%09/evil.example", "/%0A/evil.example", "%2F%2Fevil.example", "/%252Fevil.example",
 	// benign same-site targets that may be followed
 	"/after/login", "/x?y=1&z=2", "/deep/path/here#frag", "/a//b", "/with%20space", "/?next=/inner", "/path:with:colons", "/x?u=http%3A%2F%2Fevil.example",
 	"/%2F/evil.example", "/ /evil.example", "/ünï", "/x;param",
@@ -217,6 +219,16 @@ func c15Unit(c *RunCtx, unit int) {
 			code := w.Prov.Authorize(world.Identity{Provider: "alpha", UID: "u1", Email: "u1@alpha.test"})
 			rec = w.Do(b, world.Req{Method: "GET", Path: P("/oauth2/callback/alpha") + "?state=" + url.QueryEscape(st) + "&code=" + url.QueryEscape(code)})
 			x.judge("oauth2-callback", R, rec, rec.SessOut["uid"] != "", world.PathOAuth2OK)
+			// the same with further pass-through parameters (they are appended to the target as a query)
+			b = x.browser()
+			rec = w.Do(b, world.Req{Method: "GET", Path: P("/oauth2/alpha") + "?redir=" + url.QueryEscape(R) + "&utm=1&lang=fr"})
+			st = ""
+			if u, err := url.Parse(rec.Location); err == nil {
+				st = u.Query().Get("state")
+			}
+			code = w.Prov.Authorize(world.Identity{Provider: "alpha", UID: "u1", Email: "u1@alpha.test"})
+			rec = w.Do(b, world.Req{Method: "GET", Path: P("/oauth2/callback/alpha") + "?state=" + url.QueryEscape(st) + "&code=" + url.QueryEscape(code)})
+			x.judge("oauth2-callback-with-extra-params", R, rec, false, world.PathOAuth2OK)
 		}
 		// --- the access middleware's own redirect: a hostile PATH becomes the redir of the login page
 		if strings.HasPrefix(R, "/") && !strings.ContainsAny(R, "\x00\x0b\x1f \t\r\n?#") {
